@@ -106,17 +106,28 @@ def template_texts(cfgd, style, uri_of):
     immutable)."""
     n = cfgd["N"]
     texts, uris = {}, {}
+    placed = uses_dirs(cfgd)
+    fnames = {}
     for i in [n + 1] + list(range(1, n + 1)):
         t = cfgd["tpl"][i - 1]
         head = []
+        if placed:
+            # templates live in directories; the target is written as the configuration says: absolute, or relative to the
+            # directory of the template that writes the <%inherit> (pre1/pre2: the segments before the file name)
+            def written(pre, j, t=t):
+                return ("/" if t["abs"] else "") + "/".join(list(pre) + [fnames[j]])
+            sib1 = written(t["pre1"], t["p1"]) if t["p1"] else None
+            sib2 = written(t["pre2"], t["p2"]) if t["p2"] else None
+        else:
+            sib1 = uris[t["p1"]][1] if t["p1"] else None
+            sib2 = uris[t["p2"]][1] if t["p2"] else None
         if cfgd["pa"]:
             head.append('<%page args="x=-1"/>')
         if t["inh"] == "static":
-            head.append('<%%inherit file="%s"/>' % uris[t["p1"]][1])
+            head.append('<%%inherit file="%s"/>' % sib1)
         elif t["inh"] == "dyn":
             # decided at render time: the template below, the alternative base, or None ("do not inherit")
-            c1 = uris[t["p1"]][1] if t["p1"] else None
-            c2 = uris[t["p2"]][1] if t["p2"] else None
+            c1, c2 = sib1, sib2
             head.append('<%%inherit file="${%r if context[\'sw\'] == \'p1\' else (%r if context[\'sw\'] == \'p2\' else None)}"/>' % (c1, c2))
         if t["a"] == "truthy":
             head.append("<%%! %s = %d %%>" % (cn(cfgd, "a"), i))
@@ -127,10 +138,34 @@ def template_texts(cfgd, style, uri_of):
         # def probe is written in every template: the same Template objects serve whole renders and get_def() requests
         head.append('<%%def name="%s()">%s</%%def>' % (cn(cfgd, "probe"), script_text(cfgd, i, t["ps"], style)))
         text = "\n".join(head) + ("\n" if head else "") + script_text(cfgd, i, t["body"], style + i) + "\n"
-        h = hashlib.sha1(text.encode()).hexdigest()[:16]
+        # (placed templates: the directory is part of the name, so that a decoy -- same name, other directory -- can never
+        #  coincide with a real template of another configuration sharing this worker's tree)
+        h = hashlib.sha1((text + ("|dir:" + "/".join(t["dir"]) if placed else "")).encode()).hexdigest()[:16]
         texts[i] = text
         uris[i] = uri_of(h, style + i)
+        if placed:
+            fnames[i] = uris[i][0].lstrip("/")
+            uris[i] = ("/" + "/".join(list(t["dir"]) + [fnames[i]]), None)
+    if placed:
+        # decoys: a template of the same file name beside every other level (in particular beside the leaf); it must never
+        # become part of the chain
+        dirs = {tuple(t["dir"]) for t in cfgd["tpl"]}
+        for j in list(fnames):
+            for d in sorted(dirs - {tuple(cfgd["tpl"][j - 1]["dir"])}):
+                key = "decoy-%d-%s" % (j, "/".join(d))
+                texts[key] = ('<%%! %s = %d %%><%%def name="%s()">{f||%d|0}</%%def>{open||%d|-1}${next.body()}{close||%d|0}\n'
+                              % (cn(cfgd, "a"), 90 + j, cn(cfgd, "f"), 90 + j, 90 + j, 90 + j))
+                uris[key] = ("/" + "/".join(list(d) + [fnames[j]]), None)
     return texts, uris
+
+
+def uses_dirs(cfgd):
+    return any(t.get("dir") or not t.get("abs", True) for t in cfgd["tpl"])
+
+
+def needs_files(cfgd):
+    """relative spellings with . or .. only mean something on a file-backed lookup (put_string keys are opaque)"""
+    return any(s in (".", "..") for t in cfgd["tpl"] for s in list(t.get("pre1", [])) + list(t.get("pre2", [])))
 
 
 FALSY = ["0", '""', "False", "None", "[]", "{}", "0.0", "()"]
@@ -179,6 +214,8 @@ def render_cfg(cfgd, style, backed):
     from mako.runtime import Context
     from mako.util import FastEncodingBuffer
     lk, flk = _lookups()
+    if needs_files(cfgd):
+        backed = True
     if backed:
         # (own uri = key handed to get_template, uri as spelled in an <%inherit> of a sibling)
         def uri_of(h, st):
@@ -194,7 +231,9 @@ def render_cfg(cfgd, style, backed):
             if key in _W["have"]:
                 continue
             if backed:
-                with open(os.path.join(_W["fdir"], uris[i][0].lstrip("/")), "w") as f:
+                pth = os.path.join(_W["fdir"], uris[i][0].lstrip("/"))
+                os.makedirs(os.path.dirname(pth), exist_ok=True)
+                with open(pth, "w") as f:
                     f.write(text)
             else:
                 lk.put_string(uris[i][0], text)
@@ -299,6 +338,23 @@ def random_cfg(rng, n):
         return {"op": o, "via": v, "name": nm}
     k = rng.choice([0] + list(range(1, n + 1)))        # the level with a dynamic <%inherit>: any level, or none
     pa = rng.random() < 0.3
+    # where the templates live and how the inherit targets are spelled (half of the chains: one directory, absolute)
+    all_dirs = [[], ["a", "b"], ["x"], ["a"]]
+    if rng.random() < 0.5:
+        placed_dirs, spells = [[]] * (n + 1), ["abs"] * (n + 1)
+    else:
+        placed_dirs = [rng.choice(all_dirs) for _ in range(n + 1)]
+        spells = [rng.choice(["abs", "rel", "dotrel"]) for _ in range(n + 1)]
+
+    def pre(i, j):      # the spelled directory part of "template j as written in template i"
+        if not j:
+            return []
+        if spells[i - 1] == "abs":
+            return list(placed_dirs[j - 1])
+        import posixpath
+        r = posixpath.relpath("/" + "/".join(placed_dirs[j - 1]), "/" + "/".join(placed_dirs[i - 1]))
+        segs = [] if r == "." else r.split("/")
+        return (["."] if spells[i - 1] == "dotrel" else []) + segs
     tpls = []
     for i in range(1, n + 2):
         decoy = i == n + 1
@@ -309,7 +365,8 @@ def random_cfg(rng, n):
         c = rng.choice(["none", "none", "top", "inb"])
         if c == "inb" and not b:
             c = "top"
-        t = {"f": rng.random() < 0.5, "a": rng.choice(["none", "falsy", "truthy"]), "b": b, "c": c, "inh": inh,
+        t = {"dir": list(placed_dirs[i - 1]), "spell": spells[i - 1], "abs": spells[i - 1] == "abs",
+             "f": rng.random() < 0.5, "a": rng.choice(["none", "falsy", "truthy"]), "b": b, "c": c, "inh": inh,
              "p1": 0 if inh == "none" or i == 1 else i - 1, "p2": n + 1 if inh == "dyn" else 0}
         vias = ["self", "local"] + (["next"] if hn else []) + (["parent"] if hp else [])
         mid = []
@@ -326,6 +383,7 @@ def random_cfg(rng, n):
         if hn and rng.random() < 0.85:
             mid.append(op("body", "next" if rng.random() < 0.75 else "self"))
         rng.shuffle(mid)
+        t["pre1"], t["pre2"] = pre(i, t["p1"]), pre(i, t["p2"])
         t["body"] = [op("open")] + mid + [op("close")]
         t["fs"] = [op("emit", "f")] + ([op("call", "parent", "f")] if hp and rng.random() < 0.6 else []) \
             + ([op("attr", rng.choice(vias), "a")] if rng.random() < 0.3 else [])
@@ -367,7 +425,7 @@ def _safe_tok(s):
 
 # --------------------------------------------------------------------------- the check
 INVS = ["TypeOK", "SelfMostDerived", "NextParentAdjacent", "LocalIsOwn", "BaseBodyRuns", "MemoSound",
-        "BlockOnce", "AnonInPlace", "BodyArgs", "AttrValues"]
+        "BlockOnce", "AnonInPlace", "BodyArgs", "AttrValues", "InheritRelativeToWriter"]
 
 
 def mc_cfg():
@@ -376,8 +434,8 @@ def mc_cfg():
 
 
 def bounds_module(b):
-    return ("---- MODULE MC_InheritBounds ----\nMaxNDef == [dispatch |-> %d, attrs |-> %d, blocks |-> %d, args |-> %d, dyn |-> %d, entry |-> %d]\n====\n"
-            % (b["dispatch"], b["attrs"], b["blocks"], b["args"], b["dyn"], b["entry"]))
+    return ("---- MODULE MC_InheritBounds ----\nMaxNDef == [dispatch |-> %d, attrs |-> %d, blocks |-> %d, args |-> %d, dyn |-> %d, entry |-> %d, dirs |-> %d]\n====\n"
+            % (b["dispatch"], b["attrs"], b["blocks"], b["args"], b["dyn"], b["entry"], b["dirs"]))
 
 
 def first_diff(exp, obs):
@@ -411,11 +469,11 @@ def check(run):
     workers = 8 if os.environ.get("VERIF_FULL_CPU", "1") == "1" else 4
     nproc = min(core.NCPU, 12)
     # ------------------------------------------------------------------ 1. TLC: enumerate, check, print
-    bounds = {"dispatch": 5, "attrs": 5, "blocks": 5, "args": 5, "dyn": 4, "entry": 4} if thorough else {"dispatch": 4, "attrs": 4, "blocks": 4, "args": 4, "dyn": 3, "entry": 3}
+    bounds = {"dispatch": 5, "attrs": 5, "blocks": 5, "args": 5, "dyn": 4, "entry": 4, "dirs": 4} if thorough else {"dispatch": 4, "attrs": 4, "blocks": 4, "args": 4, "dyn": 3, "entry": 3, "dirs": 3}
     # (-coverage slows TLC down 4x on this model: action coverage is taken from a complete run with chains <= 2,
     #  the large run's own vacuity evidence is the printed terminal states, see below)
     cov = run.tlc("MC_Inherit", mc_cfg(), name="mc-inherit-cov", heap="4g", coverage=True, timeout=250, workers=4,
-                  extra_files={"MC_InheritBounds.tla": bounds_module({"dispatch": 2, "attrs": 2, "blocks": 2, "args": 2, "dyn": 2, "entry": 2})})
+                  extra_files={"MC_InheritBounds.tla": bounds_module({"dispatch": 2, "attrs": 2, "blocks": 2, "args": 2, "dyn": 2, "entry": 2, "dirs": 2})})
     if cov.violated:
         run.spec_violation(cov)
         return {"rule": "TLC found the design model violating %s" % cov.violated, "exhaustive": True}
